@@ -221,6 +221,14 @@ DiscardsInert == [][(ev'.n \in {"C", "H"} /\ DiscardClass) => Inert]_vars
 NoCrossTalk == [][ev'.n \in {"C", "H"} =>
                     \A s \in Sess : s # sess'[ev'.a] => (st'[s] = st[s] /\ circ'[s] = circ[s] /\ regs'[s] = regs[s])]_vars
 OnlyNamedChanges == [][(ev'.n \in {"C", "H"} /\ ~IsViewerUCC /\ ~(ev'.k \in Kill /\ ev'.ch)) => UNCHANGED pvars]_vars
+\* "discarded without disturbing the delivery of any other datagram": whatever arrives -- and however
+\* many datagrams for however many other far hosts were discarded -- a circuit that is open stays open
+\* unless CloseCircuit / DisableSimulator ends it, so that (DeliveredOnce) the next datagram of its
+\* simulator or for its simulator is delivered exactly once.  The specification has no memory of far
+\* hosts that own no circuit (no far->near map), so no history of discards can make it say otherwise;
+\* B2 "address churn" runs hold the real code to exactly this.
+OpenStaysDeliverable == [][~(ev'.n \in {"C", "H"} /\ ev'.k \in Kill /\ ev'.ch)
+                             => \A a \in Assoc, h \in Sims : IsOpen(a, h) => IsOpen(a, h)']_vars
 \* a claim happens only through a viewer's UseCircuitCode naming a pending session; with a registered
 \* region as destination it is not optional
 ClaimRule == [][(ev'.n = "C" /\ ev'.k = "ucc" /\ CanClaim(ev'.a, ev'.s) /\ ev'.h \in regs[ev'.s])
